@@ -6,8 +6,8 @@ CONSTANTS
   Faults <- MCFaults
   StopAt <- NoStop
   CmdBudget = 1
-  CmdKinds = {"hold", "release", "holdpt", "relall", "stoppt", "stopnow"}
-  SetOuts = {}
+  CmdKinds = {"trigger", "set"}
+  SetOuts = {"succeeded", "x", "failed", "started"}
 INVARIANT TypeOK
 INVARIANT C01_SubmitOnlyIfSatisfied
 INVARIANT C01_OnSequenceInBounds
